@@ -45,7 +45,7 @@ def xmlEscape (canonical : Bool) (s : Bytes) : Bytes :=
     else if ch == 38 then b!"&amp;"
     else if ch == 34 then b!"&quot;"
     else if ch == 39 then b!"&apos;"
-    else if ch == 13 && canonical then b!"&#13;"
+    else if ch == 13 then b!"&#13;"
     else if ch == 10 && canonical then b!"&#10;"
     else if ch == 9 && canonical then b!"&#9;"
     else [ch]
@@ -65,13 +65,6 @@ inductive Parent where
   | elt (n : Name)
   | other
 
-/-- The byte `node->name->u.token->wbxmlCodePage` as the C code reads it — for a literal name the
-    union holds a `WBXMLBuffer*` and the byte read is the low byte of the name's length
-    (observation recorded in DESIGN.md Appendix C). -/
-def pageByte : Name → Nat
-  | .token r => r.page
-  | .literal s => s.length % 256
-
 def nsOfPageX (ns : List NsRow) (page : Nat) : Option Bytes :=
   (ns.find? (fun r => r.page == page)).map (·.ns)
 
@@ -83,21 +76,18 @@ def xmlTag (c : XCfg) (parent : Parent) (name : Name) (st : XSt) : XSt :=
   let st := { st with curTag := match name with | .token r => some r | .literal _ => none }
   let out := st.out ++ (if c.gen == 1 then spaces (st.indent.toNat * c.delta.toNat) else [])
   let out := out ++ [60] ++ name.xmlName
-  let nsNeeded : Bool :=
-    match c.lang.ns, parent with
-    | some _, .none => true
-    | some _, .elt pn =>
-      (match pn, name with
-       | .token pr, .token r => pr.page != r.page
-       | _, _ => false)
-    | _, _ => false
-  let out := if nsNeeded then
-      (match c.lang.ns with
-       | some ns => (match nsOfPageX ns (pageByte name) with
-         | some n => out ++ b!" xmlns=\"" ++ n ++ [34]
-         | none => out)
-       | none => out)
-    else out
+  -- only token names have a code page; the root, or a token element whose token parent lives on
+  -- another page, declares the namespace of its page
+  let nsPage : Option Nat :=
+    match c.lang.ns, name, parent with
+    | some _, .token r, .none => some r.page
+    | some _, .token r, .elt (.token pr) => if pr.page != r.page then some r.page else none
+    | _, _, _ => none
+  let out := match nsPage, c.lang.ns with
+    | some p, some ns => (match nsOfPageX ns p with
+      | some n => out ++ b!" xmlns=\"" ++ n ++ [34]
+      | none => out)
+    | _, _ => out
   { st with out := out }
 
 def cstrOf (b : Bytes) : Bytes := b.take (cstrLen b)
